@@ -73,8 +73,16 @@ func methodOf(e ast.Expr) (m string, ok bool) {
 	case *ast.BasicLit:
 		if v.Kind == token.STRING {
 			s, err := strconv.Unquote(v.Value)
-			if err == nil {
-				return s, true
+			if err != nil {
+				return "", false
+			}
+			if s == "" {
+				return "", true
+			}
+			for _, m := range httpMethods {
+				if s == m {
+					return s, true
+				}
 			}
 		}
 	}
